@@ -164,6 +164,12 @@ func (e *Engine) loadSpecs(preludeDir string) error {
 			e.contracts[c.Key] = c
 		}
 		for _, ci := range sf.ChanInvs {
+			if !strings.Contains(ci.Key, "/") && !strings.Contains(ci.Key, ":") && strings.Count(ci.Key, ".") >= 2 {
+				i := strings.Index(ci.Key, ".")
+				if p := e.findPkg(ci.Key[:i], pkg); p != nil && p.Name() == ci.Key[:i] {
+					ci.Key = p.Path() + ci.Key[i:]
+				}
+			}
 			if strings.HasPrefix(ci.Key, "guarded:") {
 				e.guarded[ci.Key[8:]] = ci.Var
 				continue
